@@ -176,4 +176,11 @@ def obligations(tier):
         o = c13.per_unknown_config(kind)
         o.name = o.name.replace("C13/", "C04/system/")
         obs.append(o)
+    # "that facet's border points", "facets are ordered xmin, xmax, ymin, ymax": the border batches of the library's own
+    # generators put facet k's points on facet k (C08 well-formedness of the 2-D border store, reported under C04)
+    from contracts import c08
+    for cls in ("CubicMeshPDEStatio", "CubicMeshPDENonStatio"):
+        o = c08.space_ctor(cls, 2, "uniform", True)
+        o.name = o.name.replace("C08/", "C04/border_points/")
+        obs.append(o)
     return obs
